@@ -44,6 +44,25 @@ def main():
     ctx.ext_table = table
     if not table:
         ctx.inconc("rust extensions could not be built; native twins not exercised")
+    # every scratch directory of this run (workers inherit the variable) lives below one parent that is removed at the end, also when
+    # workers had to be killed; leftovers of runs that were killed themselves are swept when older than six hours
+    import atexit
+    import shutil
+    import tempfile
+    import time
+    base = os.environ.get("VERIF_SCRATCH") or tempfile.gettempdir()
+    try:
+        for n in os.listdir(base):
+            p = os.path.join(base, n)
+            if n.startswith("vt-run-") and time.time() - os.lstat(p).st_mtime > 6 * 3600:
+                shutil.rmtree(p, ignore_errors=True)
+    except OSError:
+        pass
+    run_dir = tempfile.mkdtemp(prefix="vt-run-%s-" % prop, dir=base)
+    os.environ["VERIF_SCRATCH"] = run_dir
+    os.environ["TMPDIR"] = run_dir          # plain tempfile users in workers and C git land there too
+    tempfile.tempdir = run_dir
+    atexit.register(shutil.rmtree, run_dir, True)
     fatal = mod.main(ctx)
     return ctx.finish(fatal_inconclusive=fatal)
 
